@@ -56,7 +56,7 @@ func guard(f func() error) (err error, panicked string) {
 
 // RoundTrip: decode the tree as T, encode, decode again.
 func RoundTrip(c Case) map[string]interface{} {
-	ev := map[string]interface{}{"ev": "rt", "t": c.T, "tree": c.Tree, "ok": false, "err": "", "tree2": &Node{K: "z"}, "equal": false, "panic": ""}
+	ev := map[string]interface{}{"ev": "rt", "t": c.T, "tree": c.Tree, "ok": false, "err": "", "tree2": &Node{K: "z"}, "equal": false, "panic": "", "byValue": true, "treeV": &Node{K: "z"}, "treeL": &Node{K: "z"}}
 	mk, ok := Types[c.T]
 	if !ok {
 		ev["err"] = "unknown wire type"
@@ -104,6 +104,32 @@ func RoundTrip(c Case) map[string]interface{} {
 	}
 	ev["ok"] = true
 	ev["equal"] = deepEq(reflect.ValueOf(v1), reflect.ValueOf(v2))
+	// the encoding must not depend on how the value is handed to the encoder: by pointer (above), by value, as an
+	// element of a parameter list
+	ev["byValue"] = true
+	if rv := reflect.ValueOf(v1); rv.Kind() == reflect.Ptr && !rv.IsNil() {
+		var encV, encL []byte
+		err, p = guard(func() error {
+			var e error
+			if encV, e = json.Marshal(rv.Elem().Interface()); e != nil {
+				return e
+			}
+			encL, e = json.Marshal([]interface{}{rv.Elem().Interface()})
+			return e
+		})
+		if p != "" {
+			ev["panic"] = p
+			return ev
+		}
+		// (compared as trees by the trace specification: the order of map entries is the encoder's to choose)
+		tv, errV := Parse(encV)
+		tl, errL := Parse(encL)
+		if err != nil || errV != nil || errL != nil || tl.K != "a" || len(tl.A) != 1 {
+			ev["byValue"] = false
+		} else {
+			ev["treeV"], ev["treeL"] = tv, tl.A[0]
+		}
+	}
 	return ev
 }
 
